@@ -159,6 +159,13 @@ func tyCores() []tyCore {
 			return &schema.OneOfSchema[string]{TypesValue: c.TypesValue, DiscriminatorFieldNameValue: c.DiscriminatorFieldNameValue,
 				DiscriminatorInlined: c.DiscriminatorInlined}
 		}},
+		{"oneof-string held by value (the struct, not the pointer the constructor returns)", func() schema.Type {
+			// OneOfSchema implements Type with value receivers: a dereferenced constructor result is a schema too
+			return *schema.NewOneOfStringSchema[any](map[string]schema.Object{"c": tyCircleObj(), "q": tySquareObj()}, "kind", false)
+		}},
+		{"oneof-int held by value", func() schema.Type {
+			return *schema.NewOneOfIntSchema[any](map[int64]schema.Object{0: tyCircleObj(), 1: tySquareObj()}, "k", false)
+		}},
 		{"object with display data", func() schema.Type {
 			dp := func(t schema.Type, d *schema.DisplayValue) *schema.PropertySchema {
 				if d == nil {
@@ -279,6 +286,8 @@ func groupTyped(s *sink, g *hx.Gen) {
 	groupStepOutput(s, g)
 	groupTypedRules(s, g)
 	groupOneOfTwins(s, g)
+	groupStringerEnums(s)
+	groupRound10Witnesses(s)
 	groupGoWitnesses(s)
 	cores := tyCores()
 	wraps := tyWraps()
